@@ -122,12 +122,14 @@ P("C04",
 
 P("C12",
   title="Parse is total and accepts exactly the properly nested templates",
-  technique="Rocq proof that a Gallina transcription of parseTpl/processCtl's counter-and-snapshot nesting algorithm accepts exactly the Dyck words over if/for/switch (C12_nesting, both directions), and that the tag scanner partitions every byte string and never runs out of fuel; tied to the code by V-mode correspondence of acceptance on generated skeletons and their single-tag mutations, plus exhaustive argument lists and mutation fuzzing with a panic/hang oracle",
-  level_text=("Theorems (Props/C12.v): parse_skel sk = true <-> balanced sk = true for every tag word (missing, surplus and crossed closers are rejected); the scanner's tokens concatenate back to the source, an unterminated tag yields the EOF error, the fuel |src|+1 always suffices. "
-              "Each run parses well-nested skeletons to depth 5, every single block-tag deletion, sampled insertions and swaps (real acceptance vs the Dyck predicate and vs the model), unterminated tags, ALL argument lists over an 11-symbol alphabet up to length 4 (5 in thorough), and mutated repository/generated templates under a watchdog."),
-  level_note="Partial by nature: the ~45 regular expressions that classify a tag's text are Go's regexp (modelled as a classification function); totality of Parse on arbitrary bytes rests on the mutation/exhaustive runs (which support, not replace, the theorems about scanner and nesting).",
-  design_ref="5 C12", trusted_base=[KERNEL, VMODE, HARNESS, "modelled, not verified: Go regexp (classification of tag text), cutComments/cutFmt pre-processing (tied by the parser correspondence of C01)"],
-  assumptions=["tag texts of the generated skeletons are canonical spellings"])
+  technique="Rocq proof over a Gallina model of the whole parser (Model/Parser.v: Parse, parseTpl, processCtl, processCond, extractMods, extractArgs, splitNodes, rollupSwitchNodes as a function from bytes to trees) whose regular expressions are REGENERATED from /repo's regexp.MustCompile literals on every run (harness/regexgen.go: go/ast + Go's regexp/syntax -> terms of Model/Regex.v, a leftmost-first backtracking matcher proved sound and complete for a declarative match relation): totality for every table of expressions, acceptance iff the block tags -- as this parser classifies them -- are properly nested (refinement to the counter-and-snapshot nesting model, itself proved equal to the Dyck grammar), scanner partition and fuel theorems; model tied to the code by V-mode correspondence: parse(now) src = tree dumped from the real parser (or both refuse) on skeletons and all their single-tag deletions, spellings, exhaustive argument lists, fuzzed sources and every generated template of the interpreter-level checks; matcher vs Go's regexp.FindSubmatchIndex on every expression",
+  level_text=("Theorems (Props/C12.v): for every table of expressions and registry content the parser model never runs out of fuel (C12_parser_total), agrees with the nesting model on error flag, counters and position from any snapshot (C12_parser_refines_nesting) and accepts a cleaned source iff all its tags are closed and its block tags are balanced (C12_parser_accepts_iff_nested); parse_skel sk = true <-> balanced sk = true <-> the grammar, for every tag word; the scanner's tokens concatenate back to the source, an unterminated tag yields the EOF error, the fuel |src|+1 always suffices; the matcher answers 'match' iff a substring belongs to the expression and reports the leftmost start (C12_matcher_spec, C12_matcher_leftmost). "
+              "Each run regenerates the 45 expressions from the source, re-proves their side condition (now_table_ok), and puts every Parse call of the run to the parser model: about 3 700 sources in the quick tier (skeletons to depth 5 with every single block-tag deletion, insertions and swaps, deep nests to 24, spellings, unterminated tags, all argument lists over an 11-symbol alphabet up to length 4, 600 mutated sources), tree for tree or refusal for refusal; 1 500 (expression, subject) pairs against Go's regexp; the real acceptance against the Dyck predicate; panic/hang oracle on the fuzz stream."),
+  level_note="What stays outside the proof: that Model/Regex.v agrees with Go's regexp on priorities and captures (covered by the matcher correspondence and, through the trees, by the parser correspondence), the translator harness/regexgen.go (trusted; a wrong translation shows as a correspondence failure on the unchanged tree), and the real parser's behaviour on bytes no run has tried (the correspondence is differential testing; 24 000 fuzzed sources agreed during development). Panics and hangs of the Go code are observed, not modelled.",
+  design_ref="5 C12 and 11.12", trusted_base=[KERNEL, VMODE, HARNESS,
+      "translator harness/regexgen.go (go/ast + regexp/syntax -> Model/Regex.v terms), re-run on /repo's source on every run",
+      "modelled, not verified: Go's regexp engine (Model/Regex.v, byte-level leftmost-first backtracking; tied by the matcher and parser correspondences), bytealg.Trim / bytes.Split / strconv.Atoi as transcribed in Model/Parser.v, the registries' answers at parse time (names read through the hook VerifRegistryNames)"],
+  assumptions=["every literal and positive class of the parser's expressions is ASCII and '.'/negated classes occur only under * and + (checked by the translator and by now_table_ok on every run), so matching bytes instead of runes gives the same boundaries"])
 
 P("C13",
   title="Rendering never panics or hangs inside dyntpl, whatever the template and data",
